@@ -6,7 +6,7 @@ from typing import Any, Dict, List
 
 from mc.common import Acc
 from mc.recv_driver import replay as _replay
-from mc.recv_driver import run_scenarios
+from mc.recv_driver import mark_stateless, run_scenarios
 from mc.recv_world import RecvWorld
 
 OUTCOMES: Dict[str, Dict[str, Any]] = {
@@ -140,6 +140,8 @@ def scenarios(tier: str) -> List[Dict[str, Any]]:
 
 def shards(tier: str, seed: int) -> List[Any]:
     scs = scenarios(tier)
+    if tier == "thorough":
+        mark_stateless(scs, 6, 12)
     scs.sort(key=lambda s: (-s["level"], -len(s["msgs"])))
     big = [s for s in scs if s["level"] > 0 and len(s["msgs"]) > 1]
     small = [s for s in scs if not (s["level"] > 0 and len(s["msgs"]) > 1)]
